@@ -161,6 +161,7 @@ func verifyFunctionCase(prog *Program, ctr *Contracts, key string, disabled map[
 	// stale loop contracts are errors
 	fr := ex.newFrame(fn, nil)
 	fr.top = true
+	ex.topFrame = fr
 	for n := range fc.Loops {
 		if n < 1 || n > len(fr.loops) {
 			panic(oos("contract names loop %d but %s has %d loops", n, key, len(fr.loops)))
@@ -239,6 +240,22 @@ func verifyFunctionCase(prog *Program, ctr *Contracts, key string, disabled map[
 	}
 	for _, c := range fc.Requires {
 		ex.sc.Assume(fr.evalClause(env0, c))
+	}
+	for _, c := range fc.Observe {
+		func() {
+			defer func() {
+				if r := recover(); r != nil {
+					if ee, ok := r.(evalErr); ok {
+						panic(oos("observe %s: %s", c.Label, string(ee)))
+					}
+					panic(r)
+				}
+			}()
+			tv := env0.eval(c.E)
+			if tv.V.K == VInt || tv.V.K == VBool {
+				ex.paramObs = append(ex.paramObs, Observable{Name: c.Label, Term: ex.sc.Define("obs."+c.Label, map[VKind]Sort{VInt: SInt, VBool: SBool}[tv.V.K], tv.V.T)})
+			}
+		}()
 	}
 	if when != nil {
 		ex.sc.Assume(fr.evalClause(env0, Clause{E: when, Label: "when", Line: fc.Line}))
